@@ -39,10 +39,10 @@ theorem tape_block_count (data : Bytes) : (Tape.dataBlocks data.length data).len
 /-- **C12 (tape, list/extract)**: reading a file back prints its true size (sum of its payloads),
     its number of data blocks and the ordinal of its leader -/
 theorem tape_read_line (dir name ext : Str) (kind mode : Nat) (chunks : List Bytes) (hn : Tape.NameOK name ext)
-    (s : Tape.RState) (rest : List Bytes) :
+    (s : Tape.RState) (rest : List Bytes) (hk : Tape.collides s.keep (pathJoin dir (name ++ [46] ++ ext)) = false) :
     ∃ s', Tape.readLoop true dir s (Tape.fileFrames name ext kind mode chunks ++ rest) = Tape.readLoop true dir s' rest
       ∧ s'.out = s.out ++ [Tape.lineOf s.l.verbose ⟨name, ext, kind, mode⟩ (s.l.blockIndex + 1) chunks.flatten.length chunks.length] := by
-  obtain ⟨l', e, _, _⟩ := Tape.readLoop_file dir name ext kind mode chunks hn s rest
+  obtain ⟨l', e, _, _⟩ := Tape.readLoop_file dir name ext kind mode chunks hn s rest hk
   refine ⟨_, e, ?_⟩
   simp [List.length_flatten]
 
@@ -120,7 +120,8 @@ theorem create_lines_eq_read_lines (w : Tape.World) (v : Bool) : ∀ (srcs : Lis
     the position of its leader block. -/
 theorem tape_reports_agree (w : Tape.World) (v : Bool) (archive : Str) (into : Option Str) (srcs : List Str)
     (hr : Tape.AllReadable w srcs) (hn : C01.ValidNames srcs)
-    (hfit : Spec.K7.encSize (srcs.map (C03.specFile w)) < 21504) :
+    (hfit : Spec.K7.encSize (srcs.map (C03.specFile w)) < 21504)
+    (hk : ∀ s ∈ srcs, samePath (pathJoin (Tape.targetDirOf archive into) (C01.catalogName s)) archive = false) :
     ∃ tape, (Tape.inject w v archive srcs).writes = [(archive, tape)]
       ∧ (Tape.inject w v archive srcs).out = Tape.reportLines w v 0 srcs
       ∧ (Tape.enumerate v tape).out = Tape.reportLines w v 0 srcs
@@ -146,14 +147,19 @@ theorem tape_reports_agree (w : Tape.World) (v : Bool) (archive : Str) (into : O
       obtain ⟨h1, h2, _, _⟩ := classify_normal s
       rw [h1, h2] at this
       exact this
-    have hx : ∀ dir, ∃ s', Tape.readLoop true dir { l := { verbose := v } } (Tape.readAll (Spec.K7.tape (srcs.map (C03.specFile w)))) = (.ret 0, s')
-        ∧ s'.out = Tape.reportLines w v 0 srcs := by
-      intro dir
-      rw [hblocks]
-      obtain ⟨s', e, _, ho⟩ := C08.readLoop_tfiles dir (createdFiles w srcs) { l := { verbose := v } } hnames
-      exact ⟨s', e, by rw [ho, create_lines_eq_read_lines]; simp⟩
-    obtain ⟨sx, ex, hox⟩ := hx (Tape.targetDirOf archive into)
-    have hl := C08.list_extract_agree_dir v (Tape.targetDirOf archive into) _ (by rw [ex])
+    have hcol : ∀ f ∈ createdFiles w srcs, Tape.collides (some archive) (pathJoin (Tape.targetDirOf archive into) f.path) = false := by
+      intro f hf
+      simp only [createdFiles, List.mem_map] at hf
+      obtain ⟨s, hs, rfl⟩ := hf
+      have := hk s hs
+      obtain ⟨h1, h2, _, _⟩ := classify_normal s
+      simp only [C01.catalogName, h1, h2] at this
+      exact this
+    obtain ⟨sx, ex, _, ho⟩ := C08.readLoop_tfiles (Tape.targetDirOf archive into) (createdFiles w srcs)
+      { l := { verbose := v }, keep := some archive } hnames hcol
+    rw [← hblocks] at ex
+    have hox : sx.out = Tape.reportLines w v 0 srcs := by rw [ho, create_lines_eq_read_lines]; simp
+    have hl := C08.list_extract_agree_dir v (Tape.targetDirOf archive into) _ (some archive) (by rw [ex])
     constructor
     · rw [hl.2, ex]; exact hox
     · simp only [Tape.extract]; rw [ex]; exact hox
@@ -209,11 +215,13 @@ theorem disk_list_report (fl : Flavour) (verbose : Bool) (img : Image) (h : ImgO
   list_report fl verbose img h hn
 
 open Moto.Disk in
-/-- **C12 (disk, extract)**: `--extract` prints exactly the `--into` line (if any) and `readReport 1` -/
+/-- **C12 (disk, extract)**: `--extract` prints exactly the `--into` line (if any) and `readReport 1`
+    (`hk`: no member would be extracted onto the archive itself — that extraction is refused, C20) -/
 theorem disk_extract_report (fl : Flavour) (verbose : Bool) (archive : Str) (into : Option Str) (img : Image) (h : ImgOk img)
-    (hn : ∀ k, k < 4 → NiceSide (img.getD k [])) :
+    (hn : ∀ k, k < 4 → NiceSide (img.getD k []))
+    (hk : ∀ p ∈ sidesFiles (Tape.targetDirOf archive into) img 0, samePath p.1 archive = false) :
     (extract fl verbose archive into (save fl img)).out = [intoText into ++ readReport 1 verbose img] :=
-  extract_report fl verbose archive into img h hn
+  extract_report fl verbose archive into img h hn hk
 
 open Moto.Disk in
 /-- **C12 (one line per file, the true size, the true block count)**: on a consistent side the
